@@ -517,6 +517,16 @@ func init() {
 		ex.needBytes(s)
 		return ex.validUTF8(s)
 	})
+	reg("unicode/utf8.AppendRune", func(ex *Exec, fr *frame, pos token.Pos, args []value) value {
+		dst, _ := args[0].([]value)
+		enc := ex.encodeRune(args[1].(*smt.Term))
+		out := make([]value, len(dst), len(dst)+len(enc))
+		copy(out, dst)
+		for _, t := range enc {
+			out = append(out, t)
+		}
+		return out
+	})
 	reg("unicode/utf8.RuneLen", func(ex *Exec, fr *frame, pos token.Pos, args []value) value {
 		return ex.b.I64(int64(len(ex.encodeRune(args[0].(*smt.Term)))))
 	})
@@ -932,3 +942,57 @@ func goTypeString(t types.Type) string {
 }
 
 var _ = fmt.Sprint
+
+// ---- strings.Builder ----
+
+func (ex *Exec) builderOf(v value) *BuilderV {
+	c, ok := v.(*value)
+	if !ok || c == nil {
+		panic(ex.unsupported("strings.Builder method on a non-addressable receiver"))
+	}
+	b, ok := (*c).(*BuilderV)
+	if !ok {
+		panic(ex.unsupported(fmt.Sprintf("strings.Builder receiver holds %T", *c)))
+	}
+	return b
+}
+
+func init() {
+	reg("(*strings.Builder).WriteString", func(ex *Exec, fr *frame, pos token.Pos, args []value) value {
+		b, s := ex.builderOf(args[0]), args[1].(*Str)
+		ex.needBytes(s)
+		b.b = append(b.b, s.b...)
+		return tuple{ex.b.I64(int64(len(s.b))), iface{}}
+	})
+	reg("(*strings.Builder).WriteByte", func(ex *Exec, fr *frame, pos token.Pos, args []value) value {
+		b := ex.builderOf(args[0])
+		b.b = append(b.b, args[1].(*smt.Term))
+		return iface{}
+	})
+	reg("(*strings.Builder).WriteRune", func(ex *Exec, fr *frame, pos token.Pos, args []value) value {
+		b := ex.builderOf(args[0])
+		enc := ex.encodeRune(args[1].(*smt.Term))
+		b.b = append(b.b, enc...)
+		return tuple{ex.b.I64(int64(len(enc))), iface{}}
+	})
+	reg("(*strings.Builder).Write", func(ex *Exec, fr *frame, pos token.Pos, args []value) value {
+		b := ex.builderOf(args[0])
+		bs, _ := args[1].([]value)
+		for _, x := range bs {
+			b.b = append(b.b, x.(*smt.Term))
+		}
+		return tuple{ex.b.I64(int64(len(bs))), iface{}}
+	})
+	reg("(*strings.Builder).String", func(ex *Exec, fr *frame, pos token.Pos, args []value) value {
+		b := ex.builderOf(args[0])
+		return &Str{b: append([]*smt.Term{}, b.b...)}
+	})
+	reg("(*strings.Builder).Len", func(ex *Exec, fr *frame, pos token.Pos, args []value) value {
+		return ex.b.I64(int64(len(ex.builderOf(args[0]).b)))
+	})
+	reg("(*strings.Builder).Grow", func(ex *Exec, fr *frame, pos token.Pos, args []value) value { return nil })
+	reg("(*strings.Builder).Reset", func(ex *Exec, fr *frame, pos token.Pos, args []value) value {
+		ex.builderOf(args[0]).b = nil
+		return nil
+	})
+}
